@@ -106,3 +106,16 @@ Theorem C02_solver_model_holds_only_facts : forall U P A (st : sstate A),
   SInv U P A st -> forall c, In c (s_db st) -> enc_kind c = true ->
   factb U P (trk_idx (e_trk (s_enc st))) c = true.
 Proof. exact sinv_facts. Qed.
+
+(* on a trail with the level structure of a CDCL run (levels do not increase towards the older
+   entries, every entry is justified by its reason clause or is the first of its level, no
+   variable twice) the side conditions of C02_analyze_sound hold by themselves: the analysis
+   never resolves on a decision, and every variable it has seen that survives the pops is in
+   the learnt clause *)
+From Resolvo Require Import Cdcl.AnalyzeOk.
+Theorem C02_analysis_ok_on_structured_trails : forall db tr conf r,
+  analyze db tr conf = Some r ->
+  tnd tr -> sortedL tr -> justL db tr ->
+  (forall c, nth_error db (N.to_nat conf) = Some c -> falsified tr (cl_lits c) = true) ->
+  analysis_ok db tr conf r = true /\ go_facts tr 0 r.
+Proof. exact analyze_ok. Qed.
